@@ -96,7 +96,7 @@ def enum(pkg):
 
 def run_symgo(hdir, cfg, tcfg, out):
     cmd = [SYMGO, "run", "-repo", REPO, "-pkgs", ",".join(cfg["pkgs"]), "-harness", hdir,
-           "-units", os.environ.get("VERIF_UNITS") or tcfg.get("units", cfg.get("units", ".*")), "-j", str(tcfg.get("j", 16)), "-out", out]
+           "-units", os.environ.get("VERIF_UNITS") or tcfg.get("units", cfg.get("units", "verif_%s_.*" % cfg["_pid"])), "-j", str(tcfg.get("j", 16)), "-out", out]
     for k in ("unwind", "steps", "maxpaths", "timeout", "qtimeout", "fbtimeout", "maxdepth", "rlimit", "fallback", "solver", "params"):
         if k in tcfg:
             cmd += ["-" + k, str(tcfg[k])]
@@ -264,6 +264,7 @@ def main():
     t0 = time.time()
     ensure_built()
     cfg = props.PROPS[pid]
+    cfg["_pid"] = pid
     tcfg = dict(cfg.get("common", {}))
     tcfg.update(cfg[tier])
     work = os.path.join(VERIF, "work", "%s-%s%s" % (pid, tier, os.environ.get("VERIF_WORKTAG", "")))
